@@ -108,6 +108,12 @@ void h_unit (void)
             extra.append({"name": "sfendian." + fn, "props": ["C20", "C01", "C05"], "harness_text": sh, "template": "units/gen_pairs.py", "entry": "h_unit", "enforce": fn,
                           "function": "sfendian.h:" + fn, "timeout": 600, "cbmc_flags": ["--object-bits", "9"],
                           "loops": {fn: [{"loop_id": 0, "assigns_locals": True, "assigns": asg, "invariants": inv, "decreases": "len - i"}]}, "trusted": []})
+    for ch in (1, 2, 3):
+        extra.append({"name": "pairs.paf24_block.ch%d" % ch, "props": ["C01", "C04"], "harness": "paf_pair.harness.c", "entry": "h_paf_pair", "dfcc": False,
+                      "function": "paf.c:paf24_write_block + paf24_read_block", "defines": ["-DCH=%d" % ch], "cbmc_flags": ["--unwind", "40", "--object-bits", "9"], "timeout": 600,
+                      "tier": "quick" if ch in (2, 3) else "thorough",
+                      "kind": "proof(pair lemma; channels enumerated; all sample values and both byte orders symbolic; block loops unwound completely)",
+                      "trusted": ["I/O stand-ins: the block buffer is the file"]})
     return extra + [{"name": "pairs.pcm_and_byte_order", "props": ["C01", "C20"], "harness_text": "\n".join(h), "template": "units/gen_pairs.py", "entry": "h_pairs",
              "dfcc": False, "function": "pcm.c:" + ", ".join(p[1] + "/" + p[2] for p in PAIRS) + "; sfendian.h:endswap_*",
              "cbmc_flags": ["--unwind", "10"], "timeout": 600, "kind": "proof(full value domain; two-element arrays)",
